@@ -1,0 +1,59 @@
+//go:build verif
+
+// Contracts for the deductive verifier in /verif (comment-only; compiled only with -tags verif).
+package consensus
+
+//@ spec func slotOf(pt int64, t int64, T int64, n int) int64 = ((t - pt) % (int64(n) * T)) / T + 1
+
+//@ func GetNextMineWindow   pure
+//@   props C13
+//@   requires deputynode.wfManager(dm) && deputynode.cfgOK()
+//@   let n = dm.GetDeputiesCount(nextHeight)
+//@   requires mineTimeout > 0 && mineTimeout <= 1<<32 && mineTimeout % 1000 == 0
+//@   requires n >= 1 && n <= 1<<16 && distance >= 1 && int(distance) <= n
+//@   requires parentTime >= 0 && currentTime >= 0 && parentTime <= 1<<50 && currentTime <= 1<<50 && parentTime % 1000 == 0
+//@   ensures  result0 < result1 && result1 - result0 == mineTimeout
+//@   ensures  result1 > currentTime
+//@   ensures  forall(t, result0, result1, t >= parentTime && slotOf(parentTime, t, mineTimeout, n) == int64(distance))
+//@   ensures  result0 >= parentTime + (int64(distance) - 1) * mineTimeout
+//@   ensures  (result0 - parentTime - (int64(distance) - 1) * mineTimeout) % (int64(n) * mineTimeout) == 0
+//@   ensures  result1 - int64(n) * mineTimeout <= currentTime || result0 == parentTime + (int64(distance) - 1) * mineTimeout
+//@   ensures  result0 % 1000 == 0
+//@   nopanic
+
+//@ func GetCorrectMiner   pure
+//@   props C13
+//@   requires parent != nil && deputynode.wfManager(dm) && deputynode.cfgOK() && parent.Height < 4294967295
+//@   let h = parent.Height + 1; pt = int64(parent.Time) * 1000; n = dm.GetDeputiesCount(h)
+//@   requires mineTimeout > 0 && mineTimeout <= 1<<32 && n >= 1 && n <= 1<<16 && mineTime <= 1<<60
+//@   panics_if mineTime < 10000000000
+//@   let r = dm.GetDeputyByDistance(h, parent.MinerAddress, uint32(slotOf(pt, mineTime, mineTimeout, n)))
+//@   ensures mineTime < pt ==> result1 == ErrSmallerMineTime
+//@   ensures mineTime >= pt && res1(r) == nil ==> result1 == nil && result0 == res0(r).MinerAddress
+//@   ensures mineTime >= pt && res1(r) != nil ==> result1 == res1(r)
+
+//@ func verifyMiner   pure
+//@   props C13
+//@   requires header != nil && parent != nil && deputynode.wfManager(dm) && deputynode.cfgOK() && parent.Height < 4294967295
+//@   requires mineTimeout > 0 && mineTimeout <= 1<<32 && header.Time >= 10000000
+//@   let n = dm.GetDeputiesCount(parent.Height + 1)
+//@   requires n >= 1 && n <= 1<<16
+//@   let g = GetCorrectMiner(parent, int64(header.Time) * 1000, int64(mineTimeout), dm)
+//@   ensures result == nil <==> (res1(g) == nil && res0(g) == header.MinerAddress)
+//@   ensures result != nil ==> result == ErrVerifyHeaderFailed
+//@   nopanic
+
+//@ lemma window_accepted_by_verifier(dm *deputynode.Manager, parent *types.Header, me common.Address, T int64, now int64, t int64)
+//@   props C13
+//@   opt opaque=slotOf
+//@   requires parent != nil && deputynode.wfManager(dm) && deputynode.cfgOK() && parent.Height < 4294967295
+//@   let h = parent.Height + 1; pt = int64(parent.Time) * 1000
+//@   let ds = dm.GetDeputiesByHeight(h, true); n = len(ds)
+//@   requires deputynode.distinctMiners(ds) && n >= 1 && n <= 1<<16
+//@   requires T > 0 && T <= 1<<32 && T % 1000 == 0 && now >= 0 && now <= 1<<50
+//@   let d = dm.GetMinerDistance(h, parent.MinerAddress, me)
+//@   requires res1(d) == nil
+//@   let w = GetNextMineWindow(h, res0(d), pt, now, T, dm)
+//@   requires res0(w) <= t && t < res1(w) && t >= 10000000000
+//@   let g = GetCorrectMiner(parent, t, T, dm)
+//@   ensures res1(g) == nil && res0(g) == me
